@@ -63,6 +63,10 @@ CLAIMED.update({
     'C15': dict(engine='P', design='§8 C15', technique='symbolic execution (forks over lexicon/rule results, symbolic token attributes) of xml_of->read_xml, to_jigg_xml->read_jigg_xml, build_ccg_tree, normalize_tokens (regex chain through the engine\'s matcher) on z3; replay through real XML text and lxml',
                 text='within the bounds C&C XML reads back to the same tree, labels and token attributes, Jigg XML to the same categories/shape/words; every Jigg sentence is self-contained (unique span ids, resolving references, tiling offsets, one root), ccg2lambda\'s tree builder rebuilds an isomorphic tree with the rule labels, token names are normalised; one recorded finding (label of an equal-result rule)'),
 })
+CLAIMED.update({
+    'C07': dict(engine='P', design='§8 C07, Appendix A', technique='bounded symbolic execution of to_string and every formatter on z3 with symbolic token attributes and head flags; one independent tolerant decoder per format runs under the same engine; replay with real lxml/json',
+                text='for every tree within the shape bound, every token attribute within the length bound (each character a solver variable over printable non-blank text) and a 2-sentence batch with an n-best pair: each format decodes, with an independent reader, to the derivation that was printed (words, shape, categories in the format\'s spelling, labels, head flags, attributes, offsets, numbering, conll heads); two recorded findings (PTB bracket tokens, Japanese field characters)'),
+})
 REASONS = {}
 def main():
     checks = []
